@@ -3,6 +3,7 @@ CONSTANTS
   Denoms = {"eth"}
   Mods <- Mods0
   AddrMode = "simple"
+  Stock = FALSE
   MaxTx = 2
   Fuel = 3
   Level = 1
